@@ -17,7 +17,7 @@ model.uuid = _types.SimpleNamespace(uuid4=lambda: "00000000-0000-0000-0000-00000
 
 BASES = ["URI", "DocumentUri", "integer", "uinteger", "decimal", "RegExp", "string", "boolean", "null"]
 MAPKEYS = ["URI", "DocumentUri", "string", "integer"]
-NSHAPES = 13
+NSHAPES = 16
 
 
 def annot(doc, flags):
@@ -67,7 +67,15 @@ def mk_type(sel, b, lit_flags=(False, False, False, False, False), popt=0):
         return {"kind": "array", "element": {"kind": "or", "items": [base, {"kind": "base", "name": "null"}]}}
     if sel == 11:
         return {"kind": "integerLiteral", "value": 7}
-    return {"kind": "booleanLiteral", "value": True}
+    if sel == 12:
+        return {"kind": "booleanLiteral", "value": True}
+    # depth 3 (thorough tier)
+    if sel == 13:
+        return {"kind": "array", "element": {"kind": "array", "element": {"kind": "or", "items": [base, ref, {"kind": "base", "name": "null"}]}}}
+    if sel == 14:
+        inner = {"kind": "literal", "value": annot({"properties": [{"name": "deep", "type": {"kind": "tuple", "items": [base, ref]}}]}, lit_flags)}
+        return {"kind": "or", "items": [{"kind": "tuple", "items": [base, ref]}, {"kind": "map", "key": {"kind": "base", "name": MAPKEYS[b % 4]}, "value": inner}, inner]}
+    return {"kind": "map", "key": {"kind": "reference", "name": "Key"}, "value": {"kind": "and", "items": [ref, {"kind": "reference", "name": "Bar"}]}}
 
 
 def _copy(x):
